@@ -398,6 +398,11 @@ func (server *Server) getTileAttempt(ctx context.Context, httpHeaders map[string
 		return 404, httpHeaders, []byte("Tile not found"), ""
 	}
 
+	// x and y beyond the 2^z x 2^z grid name no tile (ZxyToID would ignore their high bits and address another tile)
+	if z < 32 && (uint64(x)>>z != 0 || uint64(y)>>z != 0) {
+		return 404, httpHeaders, []byte("Tile not found"), ""
+	}
+
 	switch header.TileType {
 	case Mvt:
 		if ext != "mvt" {
@@ -527,9 +532,13 @@ var tileJSONPattern = regexp.MustCompile(`^\/([-A-Za-z0-9_\/!-_\.\*'\(\)']+)\.js
 func parseTilePath(path string) (bool, string, uint8, uint32, uint32, string) {
 	if res := tilePattern.FindStringSubmatch(path); res != nil {
 		name := res[1]
-		z, _ := strconv.ParseUint(res[2], 10, 8)
-		x, _ := strconv.ParseUint(res[3], 10, 32)
-		y, _ := strconv.ParseUint(res[4], 10, 32)
+		z, errZ := strconv.ParseUint(res[2], 10, 8)
+		x, errX := strconv.ParseUint(res[3], 10, 32)
+		y, errY := strconv.ParseUint(res[4], 10, 32)
+		if errZ != nil || errX != nil || errY != nil {
+			// a number that does not fit its field is not a tile coordinate (ParseUint returns the maximum value with the error)
+			return false, "", 0, 0, 0, ""
+		}
 		ext := res[5]
 		return true, name, uint8(z), uint32(x), uint32(y), ext
 	}
